@@ -696,6 +696,7 @@ func main() {
 	c.recvCases()
 	c.addrTableChecks()
 	c.mhCases()
+	c.resendCases()
 	c.concCases()
 	c.concGCases()
 	c.pubsubCases()
@@ -737,6 +738,8 @@ func (c *ctx) runReplay() {
 		c.mhReplay(rp)
 	case "concg":
 		c.concGReplay(rp.ConcG)
+	case "resend":
+		c.resendReplay(rp)
 	default:
 		panic("unknown replay kind")
 	}
